@@ -1340,7 +1340,7 @@ TypedValue ArrayManager::getMultidimensionalArrayElementTyped(
     std::vector<int> int_indices;
     int_indices.reserve(indices.size());
     for (int64_t idx : indices) {
-        int_indices.push_back(static_cast<int>(idx));
+        int_indices.push_back(Variable::index_to_int(idx));
     }
 
     size_t flat_index = 0;
@@ -1458,7 +1458,7 @@ void ArrayManager::setMultidimensionalArrayElement(
 
     std::vector<int> int_indices;
     for (int64_t idx : indices) {
-        int_indices.push_back(static_cast<int>(idx));
+        int_indices.push_back(Variable::index_to_int(idx));
     }
 
     // 構造体メンバーの場合は array_dimensions
@@ -1522,7 +1522,7 @@ void ArrayManager::setMultidimensionalArrayElement(
 
     std::vector<int> int_indices;
     for (int64_t idx : indices) {
-        int_indices.push_back(static_cast<int>(idx));
+        int_indices.push_back(Variable::index_to_int(idx));
     }
 
     // 構造体メンバーの場合は array_dimensions
@@ -1579,7 +1579,7 @@ std::string ArrayManager::getMultidimensionalStringArrayElement(
 
     std::vector<int> int_indices;
     for (int64_t idx : indices) {
-        int_indices.push_back(static_cast<int>(idx));
+        int_indices.push_back(Variable::index_to_int(idx));
     }
 
     // 構造体メンバーの場合は array_dimensions
@@ -1646,7 +1646,7 @@ void ArrayManager::setMultidimensionalStringArrayElement(
 
     std::vector<int> int_indices;
     for (int64_t idx : indices) {
-        int_indices.push_back(static_cast<int>(idx));
+        int_indices.push_back(Variable::index_to_int(idx));
     }
 
     // 構造体メンバーの場合は array_dimensions
